@@ -205,10 +205,10 @@ def text_checks(schema, od, rb, exp, probs, replay):
             m = re.search(r'static_assert\(sizeof\(%s_t\) == (\d+),' % re.escape(c), r)
             if not m or int(m.group(1)) != size:
                 bad('text:static-assert-size', 'static assertion for %s is %s, rule says %d' % (c, m.group(1) if m else 'absent', size), struct=c); return
-            m = re.search(r'%s__size\(void\) \{ return (\d+); \}' % re.escape(c), r)
+            m = re.search(r'(?<![A-Za-z0-9_])%s__size\(void\) \{ return (\d+); \}' % re.escape(c), r)
             if not m or int(m.group(1)) != size:
                 bad('text:struct-size-fn', '%s__size returns %s, rule says %d' % (c, m.group(1) if m else 'absent', size), struct=c); return
-            m = re.search(r'%s_verify_as_root\(const void \*buf, size_t bufsiz\)\s*\{\s*return flatcc_verify_struct_as_root\(buf, bufsiz, [^,]+, (\d+), (\d+)\)' % re.escape(c), v)
+            m = re.search(r'(?<![A-Za-z0-9_])%s_verify_as_root\(const void \*buf, size_t bufsiz\)\s*\{\s*return flatcc_verify_struct_as_root\(buf, bufsiz, [^,]+, (\d+), (\d+)\)' % re.escape(c), v)
             if m and (int(m.group(1)), int(m.group(2))) != (size, al):
                 bad('text:verifier-struct', 'verifier uses size/align %s/%s for %s, rule says %d/%d' % (m.group(1), m.group(2), c, size, al), struct=c); return
         elif d.kind == 'table':
@@ -455,7 +455,8 @@ def run(ctx):
     schemas = []
     for i in range(nS):
         size = ['small', 'medium', 'medium', 'large'][i % 4] if ctx.thorough else ['small', 'medium', 'medium'][i % 3]
-        schemas.append(G.gen_schema(random.Random(rng.getrandbits(64)), size))
+        # every second schema also carries the name-resolution stress (same simple names with different layouts in ancestors and globally)
+        schemas.append(G.gen_schema(random.Random(rng.getrandbits(64)), size, shadow=(i % 2 == 0)))
     # expectations from the extracted model (and the independent python computation, cross-checked)
     mlines, meta = [], []
     for s in schemas:
